@@ -186,10 +186,14 @@ def account_case(ctx, rng):
     from pytoniq_core.proof.check_proof import check_account_proof
     import hm
     n_acc = rng.choice([1, 2, 3, 8, 40])
-    ids = sorted({rng.getrandbits(256) for _ in range(n_acc)})
+    ids = {rng.getrandbits(256) for _ in range(n_acc)}
+    if rng.random() < 0.4:
+        # addresses with long runs of equal bits: their edge labels use hml_same with v = 0 and v = 1
+        ids |= set(rng.sample([0, 1, (1 << 256) - 1, 1 << 255, (1 << 255) - 1, (1 << 256) - 2], rng.choice([1, 2, 3])))
+    ids = sorted(ids)
     # real account state cells (ordinary trees; contents irrelevant to the proof check)
     accounts = {i: Builder().store_uint(i & 0xFFFF, 16).store_ref(Builder().store_uint(7, 8).end_cell()).end_cell() for i in ids}
-    target = rng.choice(ids)
+    target = rng.choice(ids) if rng.random() < 0.6 else rng.choice([i for i in ids if i in (0, 1, (1 << 256) - 1, 1 << 255, (1 << 255) - 1, (1 << 256) - 2)] or ids)
     # HashmapAugE 256 ShardAccount DepthBalanceInfo, account cells pruned (as in a real proof)
     keys = [format(i, "0256b") for i in ids]
     dag = []
@@ -208,8 +212,18 @@ def account_case(ctx, rng):
     for i, k in zip(ids, keys):
         a = accounts[i]
         dag.append(cells.pruned_node(1, [a.get_hash(0)], [a.get_depth(0)]))
-    vals2 = {k: (format(rng.getrandbits(256), "0256b") + format(rng.getrandbits(64), "064b"), [j]) for j, k in enumerate(keys)}
-    root_idx = hm.build_any_tree(rng, sorted(keys), vals2, 256, dag, canonical=True, aug_y=lambda ks: fork_extra)
+    # some accounts hold extra currencies: their DepthBalanceInfo carries a dictionary reference, which comes BEFORE
+    # account:^Account among the references of the leaf
+    leaf_extra, vals2 = {}, {}
+    for j, k in enumerate(keys):
+        refs = [j]
+        if rng.random() < 0.35:
+            dag.append((-1, "10" + format(32, "06b") + format(rng.getrandbits(32), "032b") + "00001" + format(rng.randrange(1, 256), "08b"), []))
+            refs = [len(dag) - 1, j]
+            leaf_extra[k] = "00000" + "0000" + "1"
+        vals2[k] = (format(rng.getrandbits(256), "0256b") + format(rng.getrandbits(64), "064b"), refs)
+    root_idx = hm.build_any_tree(rng, sorted(keys), vals2, 256, dag, canonical=True,
+                                 aug_y=lambda ks: leaf_extra.get(ks[0], fork_extra) if len(ks) == 1 else fork_extra)
     dict_root = cells.build_py(dag)[-1]
     acc_cell = Builder().store_bit(1).store_ref(dict_root).store_bits(fork_extra).end_cell()   # ahme_root$1 root extra
     b = Builder().store_bytes(bytes.fromhex("9023afe2")).store_int(-239, 32)
